@@ -207,8 +207,26 @@ def rule_b4(ctx):
     ad = [n for n in walk_local(g) if isinstance(n, ast.Assign) and src(n.targets[0]) == "all_defined_nonterminals"]
     ok = len(ad) == 1 and src(ad[0].value).replace("\n", " ") == "[self.partial_results[rule_ctx][0] for rule_ctx in ctx.derivation_rule()]"
     ctx.check(ok, "B4-langle-placeholder", f"{LANG}:BnfEmitter.exitBnf_grammar", "all left-hand sides collected", site(g), "defined nonterminals list changed", "every rule")
-    ok = any(isinstance(n, ast.If) and "not in unreachable_nonterminals" in src(n.test) and any(src(s) == "self.result[free_langle_nonterminal] = ['<']" for s in n.body) for n in walk_local(g))
-    ctx.check(ok, "B4-langle-placeholder", f"{LANG}:BnfEmitter.exitBnf_grammar", "helper rule <langle> ::= '<' added when used", site(g), "helper rule handling changed", "added iff reachable")
+    # the helper rule has to exist whenever some alternative mentions the helper nonterminal, whether or not that alternative is reachable from <start>
+    adds = [n for n in walk_local(g) if isinstance(n, ast.Assign) and src(n.targets[0]) == "self.result[free_langle_nonterminal]" and src(n.value) == "['<']"]
+    c = f"{LANG}:BnfEmitter.exitBnf_grammar"
+    if len(adds) != 1:
+        raise Unrecognised("C11.B4", c, "definition of the helper rule not found")
+    if not facts(adds[0]):
+        ctx.ok("B4-langle-rule-defined", c, "helper rule <langle> ::= '<' defined whenever it is used", site(adds[0]), "added unconditionally")
+    else:
+        conds = [n for n in walk_local(g) if isinstance(n, ast.If) and adds[0] in n.body]
+        test = conds[0].test if conds else None
+        t = " ".join(src(test).split()) if test is not None else ""
+        uses = (isinstance(test, ast.Call) and call_name(test) == "any" and "free_langle_nonterminal in" in t and "self.result.values()" in t)
+        if uses:
+            ctx.ok("B4-langle-rule-defined", c, "helper rule <langle> ::= '<' defined whenever it is used", site(adds[0]), "added iff some alternative mentions it")
+        elif "unreachable_nonterminals" in t or "reachable_nonterminals" in t:
+            ctx.viol("B4-langle-rule-defined", c, "helper rule <langle> ::= '<' defined whenever it is used", site(adds[0]),
+                     "the helper rule is only added when it is reachable from <start>: a '<' in a terminal of a rule that <start> does not reach is rewritten to a nonterminal that is never defined "
+                     "(`<start> ::= \"\"`, `<A> ::= \"<\"` reads back with `<A> ::= <langle>` and no rule for <langle>), so the language from <A> is lost")
+        else:
+            raise Unrecognised("C11.B4", c, f"condition of the helper rule not understood: {t[:80]}")
     ok = any(isinstance(x, ast.Call) and isinstance(x.func, ast.Attribute) and x.func.attr == "replace" and src(x.args[0]) == "f'<{self.langle_placeholder}>'" and src(x.args[1]) == "free_langle_nonterminal" for x in ast.walk(g))
     ctx.check(ok, "B4-langle-placeholder", f"{LANG}:BnfEmitter.exitBnf_grammar", "placeholder instantiated by the free nonterminal in every alternative", site(g), "placeholder instantiation changed", "instantiated")
 
